@@ -7,7 +7,7 @@ export GOFLAGS=-mod=mod GOPROXY=off GOSUMDB=off GOTOOLCHAIN=local
 GO=go1.26.8
 command -v $GO >/dev/null 2>&1 || GO=/opt/veriftools/go1.26.8/bin/go
 mkdir -p bin work evidence replays
-$GO build -o bin/verifctl ./cmd/verifctl || exit 2
+$GO build -o bin/instrument ./cmd/instrument && $GO build -o bin/verifctl ./cmd/verifctl || exit 2
 $GO test -tags verif -vet=off -c -o work/warm.test ./sim/ || exit 2
 rm -f work/warm.test
 if [ -z "$VERIF_SKIP_SELFTEST" ]; then
